@@ -125,6 +125,17 @@ fn meta_check(prog: &BlockStmt, t: &mut Tape, stats: &mut [u64; 4]) -> Result<()
 pub fn replay(case: &Value) -> Option<Violation> {
     let mk = |f: Fail| Violation { property: "C09".into(), driver: "replay".into(), class: f.0, case: case.clone(), expected: f.2, observed: f.3 };
     match case.get("kind").and_then(|k| k.as_str()) {
+        Some("many-names") => {
+            let fam = case.get("family")?.as_str()?.to_string();
+            let mut r = Report::new("C09", "exploration", "");
+            for (name, src) in many_names_programs() {
+                if name == fam {
+                    let _ = src;
+                    many_names_family_one(&mut r, &name);
+                }
+            }
+            r.violations.pop()
+        }
         Some("poison") => poisoned(case.get("src_t")?.as_str()?).err().map(mk),
         Some(kind) => {
             let src_p = case.get("src_p")?.as_str()?;
@@ -135,6 +146,70 @@ pub fn replay(case: &Value) -> Option<Violation> {
     }
 }
 
+/// Many names at once: every name keeps denoting its own variable however many there are. Up to the machine's limit (65 535
+/// variables per table, U17) the values must come out; beyond it the program is refused - it never runs with names mixed up.
+fn many_names_programs() -> Vec<(String, String)> {
+    let mut v = Vec::new();
+    for n in [300usize, 1_000, 65_000, 65_534, 65_535, 65_536, 65_537, 70_000, 131_073] {
+        let mid: String = (1..n - 1).map(|i| format!("stel v{i} = {};\n", i % 1000)).collect();
+        v.push((format!("globals:{n}"), format!("stel eerste = 11;\n{mid}stel laatste = 22;\n[eerste, v1, v{}, laatste]", n - 2)));
+        v.push((format!("locals:{n}"), format!("functie f(eerste) {{\n{mid}stel laatste = 22;\n[eerste, v1, v{}, laatste] }}\nf(11)", n - 2)));
+        if n <= 1_000 {
+            // the same names again in an inner block (all shadowed at once), read from inside and from outside
+            let inner: String = (1..n - 1).map(|i| format!("stel v{i} = {};\n", i % 1000 + 1)).collect();
+            v.push((
+                format!("shadowed:{n}"),
+                format!(
+                    "stel eerste = 11;\n{mid}stel laatste = 22;\nstel r = 0;\n{{ stel eerste = 33;\n{inner}stel laatste = 44;\nr = [eerste, v1, v{0}, laatste] }}\nals r[0] == 33 {{ als r[1] == 2 {{ als r[2] == {1} {{ als r[3] == 44 {{ [eerste, v1, v{0}, laatste] }} }} }} }}",
+                    n - 2,
+                    (n - 2) % 1000 + 1
+                ),
+            ));
+        }
+    }
+    v
+}
+
+fn many_names_family_one(rep: &mut Report, only: &str) {
+    many_names_family_filtered(rep, Some(only))
+}
+
+fn many_names_family(rep: &mut Report) {
+    many_names_family_filtered(rep, None)
+}
+
+fn many_names_family_filtered(rep: &mut Report, only: Option<&str>) {
+    for (name, src) in many_names_programs() {
+        if only.map(|o| o != name).unwrap_or(false) {
+            continue;
+        }
+        rep.eval();
+        rep.count("many-names");
+        rep.nontrivial(&name);
+        let n: usize = name.split(':').nth(1).and_then(|x| x.parse().ok()).unwrap_or(0);
+        let o = run_eval(&src, &RunCfg { budget: 20_000_000, audit_heap: true });
+        let want = |v: &Val| matches!(v, Val::Arr(_, x) if x.len() == 4 && x[0] == Val::Int(11) && x[1] == Val::Int(1) && x[2] == Val::Int(((n - 2) % 1000) as i64) && x[3] == Val::Int(22));
+        let ok = match &o.outcome {
+            Outcome::Value(v) => want(v),
+            // a refusal is fine where a table would have more entries than the machine can address
+            Outcome::Error(_) => n >= 65_000,
+            Outcome::Budget => true,
+            _ => false,
+        } && o.events.is_empty();
+        if !ok {
+            rep.violation(Violation {
+                property: "C09".into(),
+                driver: "many-names".into(),
+                class: "many-names:wrong-variable".into(),
+                case: json!({"kind": "many-names", "family": name}),
+                expected: format!("[11, 1, {}, 22]{}", (n - 2) % 1000, if n >= 65_000 { " or a refusal (too many variables)" } else { "" }),
+                observed: o.render().chars().take(400).collect(),
+            });
+        }
+    }
+    rep.sample(json!({"many-names": "stel eerste = 11; stel v1 = 1; ... stel v65535 = 535; stel laatste = 22; [eerste, v1, v65535, laatste]"}));
+}
+
 pub fn run_check(ctx: &Ctx) -> Report {
     let mut rep = Report::new(
         "C09",
@@ -142,12 +217,15 @@ pub fn run_check(ctx: &Ctx) -> Report {
         "programs of the `scopes` profile (blocks to depth 5, few reused identifiers, shadowing, same-scope re-declaration, functions nested in blocks and functions, recursion): \
          (a) against the reference interpreter; (b) one declaration and exactly the uses bound to it renamed to a fresh name; (c) an unused shadowing declaration inserted into an inner block; \
          (b),(c) must leave the observation unchanged; (d) one use replaced by an undeclared name must give a ReferenceError and no output at all. \
+         (e) 300 ... 131 073 variables in one table (globals, locals of one function, all shadowed at once): every name denotes its own variable, or the program is refused beyond the machine's limit. \
          non-trivial = a use resolves to an outer declaration although a later declaration of the same name exists (inner scope closed, or a caller's local); distinct by source text",
     );
     rep.assumptions.push("U4/U5: generated programs never read a name inside its own initialiser nor a block-scoped global from a function called after the block ended".into());
     let known = load_known_findings();
     let cases = ctx.pick(150_000u32, 4_000_000u32) / ctx.shards as u32;
     let seed = ctx.seed;
+    crate::engine::note_current("done", "");
+    many_names_family(&mut rep);
     par_shards(ctx.shards, rep, move |shard, r| {
         let cfg = DiffCfg { prop: "C09", driver: "scopes-vs-reference", profile: Profile::scopes(), cases, max_len: 600, seed: seed.wrapping_mul(104_729) + shard as u64, layout: false };
         run_diff_tapes(r, &cfg, &nontrivial, &known);
